@@ -287,6 +287,7 @@ pub fn minimise(prop: &str, clause: &str, t: &Trace, scratch: &Scratch) -> (Trac
             let (m, ch) = crate::recorder::minimise(prop, clause, c, scratch);
             (Trace::Recorder(m), ch)
         }
+        Trace::SeedSeq { .. } => (t.clone(), false),
         Trace::Bytes(c) => {
             let (m, ch) = crate::crash::minimise(prop, clause, c);
             (Trace::Bytes(m), ch)
